@@ -81,8 +81,9 @@ impl StreamChunker {
         io_block_size: usize,
     ) -> Result<Chunk> {
         use std::io::Read;
-        // Can't do 0-byte I/O
-        let io_block_size = io_block_size.max(1);
+        // Can't do 0-byte I/O, and each refill must have room for the
+        // byte carried over from the previous block plus a fresh one.
+        let io_block_size = io_block_size.max(STUFF_SEQUENCE.len());
         while self.buf.slice().len() < 2 {
             let buf = self.buf.take();
 
